@@ -840,13 +840,16 @@ class UnionByTypeMethod(DeserializationMethod):
     method_by_cls: Dict[type, DeserializationMethod]
 
     def deserialize(self, data: Any) -> Any:
+        data_cls = type(data)
+        if data_cls is int and int not in self.method_by_cls:
+            data_cls = float  # integers are valid floats, as in FloatMethod
         try:
-            method: DeserializationMethod = self.method_by_cls[type(data)]
+            method: DeserializationMethod = self.method_by_cls[data_cls]
             return method.deserialize(data)
         except KeyError:
             raise bad_type(data, *self.method_by_cls) from None
         except ValidationError as err:
-            other_classes = (cls for cls in self.method_by_cls if cls is not type(data))
+            other_classes = (cls for cls in self.method_by_cls if cls is not data_cls)
             raise merge_errors(err, bad_type(data, *other_classes))
 
 
